@@ -49,21 +49,25 @@ type scenario struct {
 	Out     string
 	Flags   []string
 	Format  string // for validation
+	Remote  bool   // run "relic remote sign" against the daemon instead of "relic sign"
 }
 
 var scenarios = []scenario{
-	{"pe-patch-rewrite", "ClassLibrary1.dll", "pe-coff", "out.dll", nil, "pe"},
-	{"jar-patch-rewrite", "hello.jar", "jar", "out.jar", nil, "jar"},
-	{"ps-patch-rewrite", "hello.ps1", "ps", "out.ps1", nil, "ps"},
-	{"msi-copy-then-edit", "dummy.msi", "msi", "out.msi", nil, "msi"},
-	{"pgp-detached-whole-file", "Release", "pgp", "out.sig", nil, "pgp-detached"},
-	{"pgp-clearsign-merge", "Release", "pgp", "out.asc", []string{"--clearsign"}, "pgp"},
-	{"cat-whole-file", "hyperv.cat", "cat", "out.cat", nil, "cat"},
-	{"manifest-whole-file", "WindowsFormsApplication1.exe.manifest", "appmanifest", "out.exe.manifest", nil, "appmanifest"},
+	{"pe-patch-rewrite", "ClassLibrary1.dll", "pe-coff", "out.dll", nil, "pe", false},
+	{"jar-patch-rewrite", "hello.jar", "jar", "out.jar", nil, "jar", false},
+	{"ps-patch-rewrite", "hello.ps1", "ps", "out.ps1", nil, "ps", false},
+	{"msi-copy-then-edit", "dummy.msi", "msi", "out.msi", nil, "msi", false},
+	{"pgp-detached-whole-file", "Release", "pgp", "out.sig", nil, "pgp-detached", false},
+	{"pgp-clearsign-merge", "Release", "pgp", "out.asc", []string{"--clearsign"}, "pgp", false},
+	{"cat-whole-file", "hyperv.cat", "cat", "out.cat", nil, "cat", false},
+	{"manifest-whole-file", "WindowsFormsApplication1.exe.manifest", "appmanifest", "out.exe.manifest", nil, "appmanifest", false},
+	// the client command has its own output code path (transform.Apply + final fix-up)
+	{"pe-remote-patch-rewrite", "ClassLibrary1.dll", "pe-coff", "out.dll", nil, "pe", true},
+	{"jar-remote-patch-rewrite", "hello.jar", "jar", "out.jar", nil, "jar", true},
 }
 
 func TestMain(m *testing.M) {
-	rec.Rule("cases = (output strategy: patch-by-rewrite for PE/JAR/PowerShell, copy-then-edit for MSI, whole-file write for PGP detached / catalog / manifest, PGP clearsign merge) x (destination absent | pre-existing) x crash point = SIGKILL injected by strace on entry to the k-th openat/write/pwrite64/copy_file_range/fchmod/ftruncate/close/unlinkat/renameat of the real relic binary; the boundary actually hit is identified from the injected run's own trace; oracle = input unchanged; a pre-existing destination still exists; destination content is byte-identical to the old content or a complete artefact (relic verify + independent well-formedness + PE checksum); no temporary siblings after normal completion or a handled error; non-trivial = kill inside the output phase (temporary file already created); distinct = (scenario, destination state, last system call before the kill, its ordinal in the output phase)")
+	rec.Rule("cases = (output strategy: patch-by-rewrite for PE/JAR/PowerShell through relic sign and for PE/JAR through relic remote sign against a live daemon, copy-then-edit for MSI, whole-file write for PGP detached / catalog / manifest, PGP clearsign merge) x (destination absent | pre-existing) x crash point = SIGKILL injected by strace on entry to the k-th openat/write/pwrite64/copy_file_range/fchmod/ftruncate/close/unlinkat/renameat of the real relic binary; the boundary actually hit is identified from the injected run's own trace; oracle = input unchanged; a pre-existing destination still exists; destination content is byte-identical to the old content or a complete artefact (relic verify + independent well-formedness + PE checksum); no temporary siblings after normal completion or a handled error; binpatch's rewrite fallback at library level: four patch sets that are not eligible for in-place application x same path / other path, killed at every system call of a small driver; non-trivial = kill inside the output phase (temporary file already created); distinct = (scenario, destination state, last system call before the kill, its ordinal in the output phase)")
 	rec.Assume("strace -e inject=...:signal=KILL kills on syscall entry; counters are per thread, so the boundary is identified post hoc from the trace; power loss (unsynced data) is not modelled, only process death")
 	var err error
 	workDir, err = os.MkdirTemp("", "c13-")
@@ -82,10 +86,36 @@ func TestMain(m *testing.M) {
 		fmt.Println("VERIF-INCONCLUSIVE: cannot build relic:", err)
 		os.Exit(1)
 	}
+	// the daemon for the "relic remote sign" scenarios lives in this process; the
+	// configuration file the client binary reads gets its URL
+	if err := env.StartServer(); err != nil {
+		fmt.Println("VERIF-INCONCLUSIVE: cannot start the daemon:", err)
+		os.Exit(1)
+	}
+	if err := env.Install(env.Cfg); err != nil {
+		panic(err)
+	}
 	code := m.Run()
+	env.StopServer()
 	rec.Flush()
 	os.RemoveAll(workDir)
 	os.Exit(code)
+}
+
+// inputBytes is the scenario's input: the fixture, for PE images with the checksum field
+// zeroed (as linkers other than Microsoft's leave it), so that the final checksum fix-up
+// has something to change and a fix-up applied to the wrong file shows.
+func inputBytes(sc scenario) []byte {
+	src, err := os.ReadFile("/repo/functest/packages/" + sc.Fixture)
+	if err != nil {
+		panic(err)
+	}
+	if sc.Format == "pe" {
+		if info, err := pegen.Parse(src); err == nil && info.ChecksumOff > 0 {
+			copy(src[info.ChecksumOff:info.ChecksumOff+4], []byte{0, 0, 0, 0})
+		}
+	}
+	return src
 }
 
 var oldContent = []byte("previous destination content, must survive or be replaced as a whole\n")
@@ -109,10 +139,8 @@ var lineRe = regexp.MustCompile(`^(\d+)\s+([a-z0-9_]+)\(`)
 
 func runOnce(dir string, sc scenario, preexist bool, inject string) (*runResult, string, string) {
 	in := filepath.Join(dir, sc.Fixture)
-	src, err := os.ReadFile("/repo/functest/packages/" + sc.Fixture)
-	if err != nil {
-		panic(err)
-	}
+	src := inputBytes(sc)
+	var err error
 	os.WriteFile(in, src, 0o644)
 	out := filepath.Join(dir, sc.Out)
 	os.Remove(out)
@@ -125,7 +153,11 @@ func runOnce(dir string, sc scenario, preexist bool, inject string) (*runResult,
 	if inject != "" {
 		args = append(args, "-e", "inject="+inject)
 	}
-	args = append(args, env.Binary, "-c", env.CfgPath, "sign", "-T", sc.SigType, "-k", "rsa2048a", "-f", in, "-o", out)
+	if sc.Remote {
+		args = append(args, env.Binary, "-c", env.CfgPath, "remote", "sign", "-T", sc.SigType, "-k", "rsa2048a", "-f", in, "-o", out)
+	} else {
+		args = append(args, env.Binary, "-c", env.CfgPath, "sign", "-T", sc.SigType, "-k", "rsa2048a", "-f", in, "-o", out)
+	}
 	args = append(args, sc.Flags...)
 	cmd := exec.Command("strace", args...)
 	cmd.Dir = dir
@@ -225,6 +257,9 @@ func check(sc scenario, preexist bool, syscallName string, k int) (string, *case
 	os.Mkdir(dir, 0o755)
 	defer os.RemoveAll(dir)
 	inject := fmt.Sprintf("%s:signal=KILL:when=%d", syscallName, k)
+	if syscallName == "" {
+		inject = "" // a run that is left alone: the same oracle applies to its end state
+	}
 	res, in, out := runOnce(dir, sc, preexist, inject)
 	cd := &caseDesc{Scenario: sc.Name, Preexist: preexist, Inject: inject}
 	boundary := "completed"
@@ -243,7 +278,7 @@ func check(sc scenario, preexist bool, syscallName string, k int) (string, *case
 		rec.Sample(sc.Name+"/"+res.lastCall, cd)
 	}
 	// oracle
-	src, _ := os.ReadFile("/repo/functest/packages/" + sc.Fixture)
+	src := inputBytes(sc)
 	if now, err := os.ReadFile(in); err != nil || !bytes.Equal(now, src) {
 		return "the input file was modified or lost", cd
 	}
@@ -326,6 +361,21 @@ func candidates(sc scenario, preexist bool) map[string][]int {
 		sort.Ints(v)
 	}
 	return out
+}
+
+// TestC13_Completion: every scenario left to run to its end, judged like a killed one
+// (input untouched, destination complete, nothing left behind).
+func TestC13_Completion(t *testing.T) {
+	for _, sc := range scenarios {
+		for _, pre := range []bool{false, true} {
+			msg, cd := check(sc, pre, "", 0)
+			if msg != "" {
+				cd.Error = msg
+				evid.SaveCase("TestC13_Completion", cd)
+				t.Fatalf("%s: %s (destination pre-existing=%v, no injection)", sc.Name, msg, pre)
+			}
+		}
+	}
 }
 
 func TestC13_CrashPoints(t *testing.T) {
@@ -423,7 +473,7 @@ func TestC13_HandledError(t *testing.T) {
 		dir := filepath.Join(workDir, fmt.Sprintf("err%d", counter))
 		os.Mkdir(dir, 0o755)
 		in := filepath.Join(dir, sc.Fixture)
-		src, _ := os.ReadFile("/repo/functest/packages/" + sc.Fixture)
+		src := inputBytes(sc)
 		os.WriteFile(in, src, 0o644)
 		out := filepath.Join(dir, "no-such-dir", sc.Out)
 		args := append([]string{"-c", env.CfgPath, "sign", "-T", sc.SigType, "-k", "rsa2048a", "-f", in, "-o", out}, sc.Flags...)
@@ -486,7 +536,7 @@ func TestC13_ErrorPoints(t *testing.T) {
 		dir := filepath.Join(workDir, fmt.Sprintf("e%d", counter))
 		os.Mkdir(dir, 0o755)
 		defer os.RemoveAll(dir)
-		src, _ := os.ReadFile("/repo/functest/packages/" + p.sc.Fixture)
+		src := inputBytes(p.sc)
 		res, in, out := runOnce(dir, p.sc, p.pre, fmt.Sprintf("%s:error=%s:when=%d", p.name, errnos[p.name], p.k))
 		if res.hung {
 			hangs = append(hangs, fmt.Sprintf("%s pre=%v %s#%d %s", p.sc.Name, p.pre, p.name, p.k, errnos[p.name]))
